@@ -323,6 +323,7 @@ func Run(stimPath, out string) {
 		wr.Put(runTCP(st))
 		if st.Srv {
 			wr.Put(runUDPServer(st))
+			wr.Put(runTCPServer(st))
 		}
 	}
 }
